@@ -331,6 +331,17 @@ func (s *logStore) LastIndex() (uint64, error) {
 func (s *logStore) GetLog(index uint64, out *raft.Log) error {
 	s.in.W.Mu.Lock()
 	defer s.in.W.Mu.Unlock()
+	if w := s.in.W; w.ReadFault != nil && !s.in.dead && w.ReadFaultActive != nil && w.ReadFaultActive(s.in) {
+		// read errors are injected only where raft handles one (it answers
+		// the RPC negatively or retries): the AppendEntries handler and the
+		// leader's request builder
+		if site, _ := callSite(); site == "appendEntries" || site == "setPreviousLog" || site == "setNewLogs" {
+			if w.ReadFault(s.in, site, index) {
+				w.ev(Event{Kind: "readfault", Srv: s.in.ID(), Gen: s.in.Gen, S: site, A: index})
+				return ErrInjected
+			}
+		}
+	}
 	l, ok := s.in.disk.Logs[index]
 	if !ok {
 		return raft.ErrLogNotFound
